@@ -28,6 +28,7 @@ def noTry : Expr → Bool
   | .try_ _ _ _ => false
   | .tryRe _ _ _ => false
   | .tryFin _ _ => false
+  | .callK _ args _ _ _ => noTryList args
 def noTryList : List Expr → Bool
   | [] => true
   | e :: es => noTry e && noTryList es
@@ -60,6 +61,7 @@ def noCatch : Expr → Bool
   | .try_ a _ b => noCatch a && isRaise b
   | .tryRe _ _ _ => false
   | .tryFin _ _ => false
+  | .callK _ args _ _ _ => noCatchList args
 def noCatchList : List Expr → Bool
   | [] => true
   | e :: es => noCatch e && noCatchList es
@@ -94,6 +96,9 @@ theorem noCatch_of_noTry : ∀ e : Expr, noTry e = true → noCatch e = true
   | .try_ _ _ _ => by simp [noTry]
   | .tryRe _ _ _ => by simp [noTry]
   | .tryFin _ _ => by simp [noTry]
+  | .callK _ args _ _ _ => by
+    simp only [noTry, noCatch]
+    exact noCatchList_of_noTry args
 theorem noCatchList_of_noTry : ∀ es : List Expr, noTryList es = true → noCatchList es = true
   | [] => by simp [noCatchList]
   | e :: es => by
@@ -118,6 +123,7 @@ def namesIn (vis : RefId → Bool) : Expr → Bool
   | .try_ a _ b => namesIn vis a && namesIn vis b
   | .tryRe a _ b => namesIn vis a && namesIn vis b
   | .tryFin a b => namesIn vis a && namesIn vis b
+  | .callK _ args _ _ _ => namesInList vis args
 def namesInList (vis : RefId → Bool) : List Expr → Bool
   | [] => true
   | e :: es => namesIn vis e && namesInList vis es
@@ -231,6 +237,25 @@ theorem compile_pw (R : RefId → Prop) (vis : RefId → Bool) (hvis : ∀ r, vi
     · exact hh _ _
   | .tryRe a c b, k, h, ht, _, _, _ => by simp [noCatch] at ht
   | .tryFin a b, k, h, ht, _, _, _ => by simp [noCatch] at ht
+  | .callK c args npos kws dflt, k, h, ht, hn, hk, hh => by
+    simp only [noCatch, namesIn] at ht hn
+    simp only [compile]
+    split
+    · exact (hh _ _).1
+    · refine compileArgs_pw R vis hvis ar params args _ h ht hn (fun vs => ?_) hh
+      split
+      · refine ⟨?_, ?_⟩
+        · simp only [NoCatch]
+          refine ⟨fun e => (hh false e).2, fun r => ?_⟩
+          cases r with
+          | ok v => exact (hk v).1
+          | err e => exact (hh _ _).1.1
+        · simp only [NameReadsIn]
+          intro r
+          cases r with
+          | ok v => exact (hk v).2
+          | err e => exact (hh _ _).1.2
+      · exact (hh _ _).1
 theorem compileArgs_pw (R : RefId → Prop) (vis : RefId → Bool) (hvis : ∀ r, vis r = true → R r)
     (ar : CellId → Option Nat) (params : List Val) :
     ∀ (es : List Expr) (k : List Val → Prog) (h : Bool → Err → Prog), noCatchList es = true →
@@ -284,6 +309,9 @@ theorem scope_facts (vis : RefId → Bool) (i : CellId) : ∀ (e : Expr),
   | .tryFin a b => by
     have ha := scope_facts vis i a; have hb := scope_facts vis i b
     simp [scopeExpr, namesIn, noTry, callsBelowId, ha, hb]
+  | .callK c args _ _ _ => by
+    have h := scopes_facts vis i args
+    simp [scopeExpr, namesIn, noTry, callsBelowId, h]
 theorem scopes_facts (vis : RefId → Bool) (i : CellId) : ∀ (es : List Expr),
     namesInList vis (scopeExprs vis es) = true ∧ noTryList (scopeExprs vis es) = noTryList es ∧
     callsBelowIdList i (scopeExprs vis es) = callsBelowIdList i es
@@ -329,6 +357,9 @@ theorem scope_noCatch (vis : RefId → Bool) : ∀ (e : Expr), noCatch e = true 
     exact ⟨scope_noCatch vis a h.1, by simp [scopeExpr, isRaise]⟩
   | .tryRe _ _ _ => by simp [noCatch]
   | .tryFin _ _ => by simp [noCatch]
+  | .callK _ args _ _ _ => by
+    simp only [scopeExpr, noCatch]
+    exact scopes_noCatch vis args
 theorem scopes_noCatch (vis : RefId → Bool) : ∀ (es : List Expr),
     noCatchList es = true → noCatchList (scopeExprs vis es) = true
   | [] => by simp [scopeExprs, noCatchList]
@@ -397,6 +428,18 @@ theorem dead_facts (dead : CellId → Option Bool) (vis : RefId → Bool) (i : C
     have ha := dead_facts dead vis i a; have hb := dead_facts dead vis i b
     simp only [deadExpr, namesIn, noCatch, callsBelowId, Bool.and_eq_true]
     exact ⟨fun h => ⟨ha.1 h.1, hb.1 h.2⟩, fun h => h, fun h => ⟨ha.2.2 h.1, hb.2.2 h.2⟩⟩
+  | .callK c args _ _ _ => by
+    have h := deads_facts dead vis i args
+    simp only [deadExpr]
+    split
+    · simp only [namesIn, noCatch, callsBelowId, Bool.and_eq_true, decide_eq_true_eq]
+      exact ⟨h.1, h.2.1, fun hh => ⟨hh.1, h.2.2 hh.2⟩⟩
+    · simp only [namesIn, noCatch, callsBelowId, namesInList, noCatchList, callsBelowIdList, Bool.and_eq_true,
+        decide_eq_true_eq]
+      exact ⟨fun _ => trivial, fun _ => trivial, fun hh => ⟨hh.1, trivial⟩⟩
+    · simp only [namesIn, noCatch, callsBelowId, namesInList, noCatchList, callsBelowIdList, isRaise,
+        Bool.and_eq_true, decide_eq_true_eq]
+      exact ⟨fun _ => ⟨trivial, trivial⟩, fun _ => ⟨trivial, trivial⟩, fun hh => ⟨⟨hh.1, trivial⟩, trivial⟩⟩
 theorem deads_facts (dead : CellId → Option Bool) (vis : RefId → Bool) (i : CellId) : ∀ (es : List Expr),
     (namesInList vis es = true → namesInList vis (deadExprs dead es) = true) ∧
     (noCatchList es = true → noCatchList (deadExprs dead es) = true) ∧
